@@ -865,21 +865,64 @@ def rule_literals(ctx, ix):
             ctx.ok("C06.literals", key)
         else:
             ctx.fail("C06.literals", key, f"literal is not embedded as llvm.Constant({ty}, self.value)")
-    # sugar.Float / desugar / identifiable / to_ir pass the value through unchanged
-    for q, want in (
-        ("tensora.desugar._desugar_expression.desugar_float", "desugar.Float(self.value)"),
-        ("tensora.desugar._desugar_expression.desugar_integer", "desugar.Integer(self.value)"),
-        ("tensora.iteration_graph.identifiable_expression._to_ir.to_ir_float", "ir.FloatLiteral(self.value)"),
-        ("tensora.iteration_graph.identifiable_expression._to_ir.to_ir_integer", "ir.IntegerLiteral(self.value)"),
-    ):
-        ctx.instance("C06.literals")
-        fn = ix.func(q).node
-        rets = [n for n in ast.walk(fn) if isinstance(n, ast.Return)]
-        key = f"{q.split('tensora.', 1)[1]}"
-        if len(rets) == 1 and ast.unparse(rets[0].value) == want:
-            ctx.ok("C06.literals", key)
-        else:
-            ctx.fail("C06.literals", key, f"literal value is not passed through unchanged (`{want}`)")
+    # every lowering stage hands the literal's value on exactly: sugar -> desugar -> identifiable -> IR.
+    # Decided on whichever function is registered for the literal class (function names are free).
+    stages = (
+        ("tensora.desugar._desugar_expression", "desugar_expression"),
+        ("tensora.desugar._to_iteration_graphs", "to_iteration_graphs_expression"),
+        ("tensora.iteration_graph.identifiable_expression._to_ir", "to_ir"),
+    )
+    LIT = {"Integer": "int", "Float": "float", "IntegerLiteral": "int", "FloatLiteral": "float"}
+    for mod, disp in stages:
+        impl = registered_impl_all(ix, mod, disp)
+        for cls in ("Integer", "Float"):
+            ctx.instance("C06.literals")
+            key = f"{mod.split('tensora.', 1)[1]}:{disp}:{cls}"
+            fn = impl.get(cls)
+            if fn is None:
+                ctx.fail("C06.literals", key, "no implementation registered for the literal class")
+                continue
+            me = fn.args.args[0].arg
+            builds = [n for n in ast.walk(fn) if isinstance(n, ast.Call) and ast.unparse(n.func).split(".")[-1] in LIT]
+            uses = [n for n in ast.walk(fn) if isinstance(n, ast.Attribute) and n.attr == "value" and isinstance(n.value, ast.Name) and n.value.id == me]
+            why = None
+            if len(builds) != 1 or len(builds[0].args) != 1 or builds[0].keywords:
+                why = f"does not build exactly one literal node ({[ast.unparse(b) for b in builds]})"
+            else:
+                out_kind = LIT[ast.unparse(builds[0].func).split(".")[-1]]
+                arg = ast.unparse(builds[0].args[0])
+                in_kind = LIT[cls]
+                if arg == f"{me}.value" and out_kind == in_kind:
+                    if disp == "to_ir" and in_kind == "int":
+                        why = "an integer literal of the assignment is lowered as an int32 IR literal: literal arithmetic is then int32 (overflow) and a value outside int32 is truncated by LLVM but not by C"
+                elif arg == f"float({me}.value)" and in_kind == "int" and out_kind == "float":
+                    pass  # exact for every integer a double represents; the same rounding the C compiler applies
+                else:
+                    why = f"literal value is not handed on unchanged: `{ast.unparse(builds[0])}`"
+                if why is None and len(uses) != 1:
+                    why = f"the literal's value is used {len(uses)} times (expected once, inside the node built)"
+            if why:
+                ctx.fail("C06.literals", key, why)
+            else:
+                ctx.ok("C06.literals", key)
+
+
+def registered_impl_all(ix, module, dispatcher):
+    """Like registered_impl, but a function carrying several `@dispatcher.register(Cls)` decorators is
+    registered for each of them."""
+    out = {}
+    for fn in ix.module(module).body:
+        if not isinstance(fn, ast.FunctionDef):
+            continue
+        for d in fn.decorator_list:
+            if isinstance(d, ast.Call) and isinstance(d.func, ast.Attribute) and d.func.attr == "register":
+                if isinstance(d.func.value, ast.Name) and d.func.value.id == dispatcher and d.args:
+                    out[ast.unparse(d.args[0]).split(".")[-1]] = fn
+            elif isinstance(d, ast.Attribute) and d.attr == "register" and isinstance(d.value, ast.Name) and d.value.id == dispatcher:
+                if fn.args.args and fn.args.args[0].annotation is not None:
+                    for part in ast.unparse(fn.args.args[0].annotation).split("|"):
+                        out[part.strip().split(".")[-1]] = fn
+    return out
 
 
 # ------------------------------------------------------------------------------------------------
@@ -919,6 +962,93 @@ def rule_hoisting(ctx, ix):
             ctx.fail("C06.hoisting", key, "declaration form does not contribute its variable")
 
 
+def rule_function_scope(ctx, ix):
+    """C scopes names per function; the LLVM printer must too.  In the printer of a FunctionDefinition the
+    name environment handed to the body printer (a) is built by this call (not a parameter or module-level
+    object that the call mutates: bindings would leak into the next definition), and (b) receives a stack
+    slot made by THIS function's builder for every parameter and every hoisted declaration, unconditionally."""
+    ctx.rule("C06.function-scope", "LLVM name environment is per function: fresh, and unconditionally bound for parameters and hoisted declarations", min_instances=3)
+    tree = ix.module(L_MOD)
+    fdef = None
+    for fn in tree.body:
+        if isinstance(fn, ast.FunctionDef) and fn.args.args and fn.args.args[0].annotation is not None and ast.unparse(fn.args.args[0].annotation).split(".")[-1] == "FunctionDefinition":
+            fdef = fn
+    key0 = "codegen/_ir_to_llvm.py:<printer of FunctionDefinition>"
+    ctx.instance("C06.function-scope")
+    if fdef is None:
+        ctx.fail("C06.function-scope", key0, "no function whose first parameter is a FunctionDefinition")
+        return
+    key0 = f"codegen/_ir_to_llvm.py:{fdef.name}"
+    me = fdef.args.args[0].arg
+    params = {a.arg for a in fdef.args.args + fdef.args.kwonlyargs}
+    body_calls = [
+        n
+        for n in ast.walk(fdef)
+        if isinstance(n, ast.Call) and ast.unparse(n.func).split(".")[-1] == "ir_to_llvm_statement" and n.args and ast.unparse(n.args[0]) == f"{me}.body"
+    ]
+    if len(body_calls) != 1 or len(body_calls[0].args) < 3:
+        ctx.fail("C06.function-scope", key0, "the body is not printed by exactly one ir_to_llvm_statement(self.body, builder, env) call")
+        return
+    call = body_calls[0]
+    builder = ast.unparse(call.args[1])
+    env_names = {n.id for n in ast.walk(call.args[2]) if isinstance(n, ast.Name)}
+    ctx.ok("C06.function-scope", key0 + f": body printed with env `{ast.unparse(call.args[2])}`")
+    # (a) freshness of every env component this function writes
+    FRESH = (ast.Dict, ast.DictComp)
+    written = {}
+    for n in ast.walk(fdef):
+        if isinstance(n, (ast.Assign, ast.AugAssign)):
+            for t in n.targets if isinstance(n, ast.Assign) else [n.target]:
+                if isinstance(t, ast.Subscript) and isinstance(t.value, ast.Name) and t.value.id in env_names:
+                    written.setdefault(t.value.id, []).append(n)
+        if isinstance(n, ast.Call) and isinstance(n.func, ast.Attribute) and n.func.attr in ("update", "setdefault", "__setitem__") and isinstance(n.func.value, ast.Name) and n.func.value.id in env_names:
+            written.setdefault(n.func.value.id, []).append(n)
+    for name in sorted(written):
+        ctx.instance("C06.function-scope")
+        key = f"{key0}:{name}"
+        creations = [n for n in ast.walk(fdef) if isinstance(n, ast.Assign) and any(isinstance(t, ast.Name) and t.id == name for t in n.targets)]
+        fresh = bool(creations) and all(
+            isinstance(c.value, FRESH)
+            or (isinstance(c.value, ast.Call) and ast.unparse(c.value.func) in ("dict",) )
+            or (isinstance(c.value, ast.Call) and isinstance(c.value.func, ast.Attribute) and c.value.func.attr == "copy")
+            or isinstance(c.value, ast.BinOp)
+            for c in creations
+        )
+        if name in params and not creations:
+            ctx.fail("C06.function-scope", key, f"`{name}` is a parameter that this function fills in place: every definition of the module shares one scope, so a later function resolves names to the first function's stack slots")
+        elif not fresh:
+            ctx.fail("C06.function-scope", key, f"`{name}` is written here but not created fresh by this call")
+        else:
+            ctx.ok("C06.function-scope", key + " fresh per definition")
+    # (b) unconditional binding loops
+    for what, pred in (
+        ("parameters", lambda it: f"{me}.parameters" in ast.unparse(it)),
+        ("hoisted declarations", lambda it: "hoist_declarations" in ast.unparse(it)),
+    ):
+        ctx.instance("C06.function-scope")
+        key = f"{key0}:{what}"
+        loops = [n for n in fdef.body if isinstance(n, ast.For) and pred(n.iter)]
+        if len(loops) != 1:
+            ctx.fail("C06.function-scope", key, f"expected one top-level loop over the {what}, found {len(loops)}")
+            continue
+        loop = loops[0]
+        stores = [
+            st
+            for st in loop.body
+            if isinstance(st, ast.Assign) and isinstance(st.targets[0], ast.Subscript) and isinstance(st.targets[0].value, ast.Name) and st.targets[0].value.id in env_names
+        ]
+        allocas = [n for n in ast.walk(loop) if isinstance(n, ast.Call) and isinstance(n.func, ast.Attribute) and n.func.attr == "alloca"]
+        cond = [n for n in ast.walk(loop) if isinstance(n, (ast.If, ast.IfExp, ast.Try, ast.Continue, ast.Break))]
+        if not stores:
+            ctx.fail("C06.function-scope", key, "no unconditional `env[name] = slot` store in the loop body")
+        elif cond:
+            ctx.fail("C06.function-scope", key, f"binding of {what} is conditional (`{ast.unparse(cond[0]).splitlines()[0]}`): a name can keep a slot that belongs to another function or none")
+        elif not allocas or any(ast.unparse(a.func.value) != builder for a in allocas):
+            ctx.fail("C06.function-scope", key, f"slot is not an alloca of this function's builder `{builder}`")
+        else:
+            ctx.ok("C06.function-scope", key)
+
+
 def run(ctx):
     ix = SourceIndex(ctx.src)
     rule_dispatch(ctx, ix)
@@ -930,4 +1060,5 @@ def run(ctx):
     rule_identifiers(ctx, ix)
     rule_literals(ctx, ix)
     rule_hoisting(ctx, ix)
+    rule_function_scope(ctx, ix)
     return ix
